@@ -118,18 +118,50 @@ def arg_path(a, src):
     return field_path(a)
 
 
+def callee_canons(f):
+    out = []
+    for b in f.blocks or []:
+        t = b.get("term") or {}
+        if t.get("k") == "call" and t.get("callee"):
+            cal = t["callee"]
+            out += [cn for cn in (cal.get("canon"), (cal.get("resolved") or {}).get("canon")) if cn]
+    return out
+
+
+def reachable(crate, roots):
+    """functions and closures of `crate` reachable from `roots` through resolved direct calls (closures count with their parent)"""
+    seen = {}
+    work = list(roots)
+    while work:
+        f = work.pop()
+        if f.canon in seen:
+            continue
+        seen[f.canon] = f
+        for g in crate.fns:
+            if g.canon.startswith(f.canon + "::{closure") and g.canon not in seen:
+                work.append(g)
+        for cn in callee_canons(f):
+            g = crate.by_canon.get(cn)
+            # trait impls (derived Clone/PartialEq/Hash of the schema types, From conversions) are other properties' business
+            if g is not None and g.canon not in seen and not g.impl_trait:
+                work.append(g)
+    return [f for f in crate.fns if f.canon in seen]
+
+
 def run(run_, ctx):
     F = ctx.facts("A")
     sc = F.crate("postcard_schema")
     run_.configs.append("A")
     run_.bodies += len(sc.fns)
-    fns = [f for f in sc.fns if "schema::fmt::" in f.canon or
-           (f.name in ("to_pseudocode", "all_used_types") and (f.impl_self or "").endswith("OwnedDataModelType")) or
-           (f.name == "fmt" and (f.impl_trait or "").endswith("fmt::Display") and (f.impl_self or "").endswith("OwnedDataModelType"))]
-    names = set(f.name for f in fns)
-    for need in ("to_pseudocode", "all_used_types", "fmt", "is_prim", "fmt_owned_dmt_to_buf", "discover_tys"):
-        if need not in names:
-            run_.bad("ANCHOR", need, "helper not found")
+    # the three public entry points and everything of this crate they can reach (the formatter, the walker, their helpers and
+    # closures, wherever they live)
+    entry = [f for f in sc.fns if (f.name in ("to_pseudocode", "all_used_types") and (f.impl_self or "").endswith("OwnedDataModelType")) or
+             (f.name == "fmt" and (f.impl_trait or "").endswith("fmt::Display") and (f.impl_self or "").endswith("OwnedDataModelType"))]
+    for need in ("to_pseudocode", "all_used_types", "fmt"):
+        if need not in set(f.name for f in entry):
+            run_.bad("ANCHOR", need, "entry point not found")
+    fns = reachable(sc, entry)
+    local_canons = set(f.canon for f in fns) - set(f.canon for f in entry)
 
     def discharge(s):
         if s.kind == "assert:BoundsCheck":
@@ -146,17 +178,25 @@ def run(run_, ctx):
     pan.run_sites(run_, "P", F, fns, discharge)
     for f in fns:
         run_.ok("P", summ.fn_key(f) + " scanned", "all paths explored for panic sites", f.where())
-    run_.floor("P", 10)
+    run_.floor("P", 5)
     # ---- roots by signature ------------------------------------------------------------------------------------------
     def sig(f):
         return [re.sub(r"'\w+ ", "", l["ty"]) for l in f.locals[1:f.argc + 1]]
-    fmtroot = [f for f in fns if f.dk == "Fn" and sig(f) == ["&schema::owned::OwnedDataModelType", "&mut std::string::String", "bool"]]
-    walkroot = [f for f in fns if f.dk == "Fn" and len(sig(f)) == 2 and sig(f)[0] == "&schema::owned::OwnedDataModelType" and "HashSet<" in sig(f)[1]]
+    def self_recursive(f):
+        start = [h for h in fns if h.canon.startswith(f.canon + "::{closure")] + [sc.by_canon[cn] for cn in callee_canons(f) if cn in sc.by_canon and cn != f.canon]
+        return f.canon in set(g.canon for g in reachable(sc, start)) or f.canon in callee_canons(f)
+    plain = lambda f: f.dk in ("Fn", "AssocFn") and "{closure" not in f.canon
+    fmtroot = [f for f in fns if plain(f) and sig(f) == ["&schema::owned::OwnedDataModelType", "&mut std::string::String", "bool"]]
+    walkroot = [f for f in fns if plain(f) and len(sig(f)) == 2 and sig(f)[0] == "&schema::owned::OwnedDataModelType" and "HashSet<" in sig(f)[1]]
+    if len(walkroot) > 1:
+        # a forwarding wrapper and the walker proper have the same signature: the walker is the one that recurses
+        rec = [f for f in walkroot if self_recursive(f)]
+        walkroot = rec if len(rec) == 1 else walkroot
     # ---- E: entry points (hand-written, in the vocabulary of the semantic summaries; helpers stay calls here) --------------------------
     byk = {summ.fn_key(f): f for f in fns}
-    noinl = lambda g, ev: False
     if len(fmtroot) == 1 and len(walkroot) == 1:
         fr, wr = fmtroot[0].def_, walkroot[0].def_
+        noinl = lambda g, ev: g.canon in local_canons and g.canon not in (fmtroot[0].canon, walkroot[0].canon)
         ENTRY = {
             "<schema::owned::OwnedDataModelType as ->::to_pseudocode": ["#1 = %s(self, &{String::new()}, true) => after#1(~)" % fr],
             "<schema::owned::OwnedDataModelType as ->::all_used_types": ["#1 = %s(self, &{HashSet::new()}, true) => after#1(~)".replace(", true", "") % wr],
@@ -170,7 +210,7 @@ def run(run_, ctx):
                        expected=want, found=got)
         k = "<schema::owned::OwnedDataModelType as Display>::fmt"
         if k in byk:
-            got = [o["text"] for o in summ2.summarize(F, byk[k], inline=lambda g, ev: g.name == "to_pseudocode")["outcomes"]]
+            got = [o["text"] for o in summ2.summarize(F, byk[k], inline=lambda g, ev: g.name == "to_pseudocode" or noinl(g, ev))["outcomes"]]
             okd = len(got) == 2 and all(t.startswith("#1 = %s(self, &{String::new()}, true); #2 = std::fmt::Formatter::<'a>::write_str(arg2, deref(&{after#1(~)}))" % fr) for t in got)
             run_.check(okd, "E", k, "Display must write exactly the pseudocode rendering", byk[k].where(), found=got)
         else:
@@ -181,7 +221,7 @@ def run(run_, ctx):
     # ---- X: the walker visits every nested schema of every node kind (children computed from the ADT tables) --------------------------
     if len(walkroot) == 1:
         root = walkroot[0]
-        pol = lambda g, ev: g.crate == "postcard_schema" and "schema::fmt::" in g.canon and g.canon != root.canon
+        pol = lambda g, ev: g.canon in local_canons and g.canon != root.canon
         eng = sym.Engine(F, max_visits=3, inline=pol, models=sym.SLICE_MODELS, max_depth=10)
         arms = {}
         insert_ok = True
@@ -231,9 +271,8 @@ def run(run_, ctx):
     # ---- N: names are rendered: the formatter's appends to the buffer, read with all its helpers/closures analysed in place ------------------
     if len(fmtroot) == 1:
         root = fmtroot[0]
-        local = lambda g: g.crate == "postcard_schema" and "schema::fmt::" in g.canon
+        local = lambda g: g.canon in local_canons
         pol = lambda g, ev: local(g) and g.canon != root.canon
-        eng = sym.Engine(F, max_visits=3, inline=pol, models=sym.SLICE_MODELS, max_depth=12)
         dmt = [v["name"] for v in sc.adts["postcard_schema::schema::owned::OwnedDataModelType"]["variants"]]
         st_ok, en_ok, fld, var_inline = [], [], [], []
         APPEND = ("add_assign", "push_str")
@@ -244,7 +283,7 @@ def run(run_, ctx):
             # a call that stayed a call inside the formatter module: the recursion into a nested schema
             cal = e["callee"] or {}
             cn = (cal.get("resolved") or {}).get("canon") or cal.get("canon") or ""
-            return cal.get("krate") == "postcard_schema" and "schema::fmt::" in cn
+            return cal.get("krate") == "postcard_schema" and cn in local_canons
 
         def subject_path(e, argn):
             for a in e["args"]:
@@ -252,16 +291,31 @@ def run(run_, ctx):
                 if fp and fp[0] == "arg%d" % argn and len(fp) > 1:
                     return fp
             return None
-        for p in eng.run(root):
+        # the discriminant the formatter dispatches on, then one exploration per arm of interest (top-level Struct with two loop
+        # iterations so that first and subsequent fields are seen; top-level Enum with one)
+        probe = sym.Engine(F, max_visits=1, inline=pol, models=sym.SLICE_MODELS, max_depth=12, max_paths=60)
+        atom0 = None
+        for p in probe.run(root):
+            for atom, v in p.tagfacts.items():
+                if atom[0] == "tag" and isinstance(v, int) and field_path(atom[1]) == ("arg1",):
+                    atom0 = atom
+        paths_n = []
+        truncated = atom0 is None
+        for arm, visits in (("Struct", 3), ("Enum", 2)):
+            if atom0 is None or arm not in dmt:
+                continue
+            eng = sym.Engine(F, max_visits=visits, inline=pol, models=sym.SLICE_MODELS, max_depth=12, max_paths=20000, max_steps=200000)
+            paths_n += eng.run(root, [None, None, sym.C(1, "bool")], tagfacts={atom0: dmt.index(arm)})
+            truncated = truncated or eng.truncated
+        for p in paths_n:
             if p.status not in ("return", "cut"):
                 continue
             k = None
             for atom, v in p.tagfacts.items():
                 if atom[0] == "tag" and isinstance(v, int) and field_path(atom[1]) == ("arg1",):
                     k = v
-            top = any(norm(c) == ("param", 3, "bool") and t is True for c, t, kk in p.pc)
             name = dmt[k] if k is not None and k < len(dmt) else None
-            if not top or name not in ("Struct", "Enum"):
+            if name not in ("Struct", "Enum"):
                 continue
             seq = []
             for e in tbl.residual_calls(p):
@@ -282,6 +336,8 @@ def run(run_, ctx):
                         last_name = None
             else:
                 var_inline.append(any(kind == "app" and pth and pth[-1] == "name" and "variants" in pth for kind, pth in seq))
+        if truncated:
+            run_.bad("N", "exploration", "path exploration of the formatter was truncated (too many paths)", root.where())
         run_.check(bool(st_ok) and all(st_ok), "N", "struct name + fields", "a top-level struct must render its own name on every path", root.where())
         run_.check(bool(en_ok) and all(en_ok), "N", "enum name + variants", "a top-level enum must render its own name on every path", root.where())
         run_.check(len(fld) >= 3 and all(fld), "N", "field names", "every named field must be rendered with its name right before its type (first and subsequent fields)", root.where(),
